@@ -6,6 +6,9 @@ V = os.path.dirname(os.path.dirname(os.path.abspath(__file__)))
 # id -> (technique, level text, level note, design ref)
 PROOF_NOTE = "Lean 4.33 kernel; axioms propext/Quot.sound/Classical.choice only (audited per run); translator go/extract and the layout interpreter Model/Layout.lean validated against the real IEncode/IDecode by the correspondence run; Go runtime/stdlib modelled (DESIGN.md 2.6)."
 CLAIMED = {
+ "C08": ("Lean 4: alphabet tables regenerated from the Go map literals and compared with a hand-transcribed TS 23.038 table by `decide +kernel`; encode/decode inverse, refusal and validator agreement by induction over arbitrary texts; packing length by functional induction on the block structure; pack = bit-stream specification validated exhaustively for short sequences and by correspondence (hand model of Pack/Unpack)",
+         "Alphabet clauses are proved for all texts over the regenerated tables. Packing: the model of Pack/Unpack is tied to the code by correspondence on all sequences of length <= 2..3, all branch-alphabet sequences to length 5..8, all block-boundary triples for lengths 1..40 and one-bit wiring for lengths 0..64, each also compared on the Go side with an independent big-integer bit-stream packer.",
+         PROOF_NOTE + " x/text transform plumbing exercised, not modelled.", "DESIGN.md 4/C08"),
  "C15": ("Lean 4 theorems: digest-input layout and 10-digit timestamp by induction, exchange theorem for an uninterpreted MD5 as a corollary of the reflective round-trip theorem on the regenerated connect/login layouts (`decide` per run); library authenticators compared with crypto/md5 of the model's digest input",
          "For an arbitrary digest function the decoded account, timestamp and 16 digest octets equal the sent ones for CMPP 2.0/3.0 connect(+resp) and SMGP login, for all field values (0x00 octets included); MD5 itself is outside the proof and the library's digest is compared with crypto/md5 over the model's input on 3k-150k credential sets.",
          PROOF_NOTE + " crypto/md5 uninterpreted.", "DESIGN.md 4/C15"),
